@@ -5,6 +5,7 @@
 //   HarmonicNumbers::getBitMapEstimate                    (HLL linear-counting estimator, k x hits)
 //   CubicInterpolation::usingXAndYTables                  (HLL coupon estimator, coupon count)
 //   INVERSE_POWERS_OF_2, KXP_BYTE_TABLE                   (exact table contents)
+//   HllArray::getCompositeEstimate                        (lg_k 4..21 x raw estimate around and beyond the table end)
 //   exact one-sided coverage of the binomial bounds        (true count N x theta x std devs, binomial pmf summed)
 // The grid is sharded by case index; every grid point is an "evaluation".
 #include "vf/core.hpp"
@@ -129,12 +130,13 @@ static void run_exact_coverage(uint64_t N) {
 }
 
 // ------------------------------------------------------------------ case layout
-enum Kind { K_ICON, K_BITMAP, K_MISC, K_COUPON, K_BINOM, K_EXACTCOV };
+enum Kind { K_ICON, K_BITMAP, K_MISC, K_COUPON, K_BINOM, K_EXACTCOV, K_COMPOSITE };
 struct CaseDef { Kind kind; uint64_t arg; };
 static std::vector<CaseDef> build_cases() {
   std::vector<CaseDef> c;
   for (uint64_t lg = 26; lg >= 4; --lg) c.push_back({K_ICON, lg});
   for (uint64_t lg = 21; lg >= 4; --lg) c.push_back({K_BITMAP, lg});
+  for (uint64_t lg = 21; lg >= 4; --lg) c.push_back({K_COMPOSITE, lg});
   c.push_back({K_MISC, 0});
   c.push_back({K_COUPON, 0});
   for (uint64_t i = 0; i < NS().size(); ++i) c.push_back({K_BINOM, i});
@@ -310,6 +312,45 @@ static void run_coupon() {
   sig(h);
 }
 
+// ------------------------------------------------------------------ HLL composite estimator as a function of the raw estimate
+// The composite (non-HIP) estimate is a pure function of the register sums.  On a real HLL-mode array (HLL_8, reached by
+// updates) the kxq registers are overwritten (-fno-access-control) so that the raw HLL estimate sweeps from half the last
+// point of the interpolation table to six times it, with very fine steps around the table end, where interpolation hands over
+// to proportional extrapolation: the estimate must be finite, non-decreasing, and must not move by more than 3x the relative
+// step of the raw estimate (no jump between the two regimes).
+static void run_composite(uint8_t lg_k) {
+  describe("HllArray::getCompositeEstimate as a function of the raw estimate, lg_k=" + std::to_string(lg_k));
+  typedef std::allocator<uint8_t> AL;
+  hll_sketch sk(lg_k, HLL_8);
+  for (uint64_t i = 0; sk.get_current_mode() != HLL; ++i) sk.update(bij(0x636f6d70ULL + i));
+  HllArray<AL>* arr = static_cast<HllArray<AL>*>(sk.sketch_impl);
+  const double* xarr = CompositeInterpolationXTable<AL>::get_x_arr(lg_k);
+  const double xlast = xarr[CompositeInterpolationXTable<AL>::get_x_arr_length() - 1];
+  arr->putKxQ1(0.0); arr->putKxQ0(1.0);
+  const double raw_at_1 = arr->getHllRawEstimate();        // raw estimate = raw_at_1 / (kxq0 + kxq1)
+  std::vector<double> targets;
+  for (double x = 0.5 * xlast; x < 6.0 * xlast; x *= 1.0005) targets.push_back(x);
+  for (double e : {1e-12, 1e-9, 1e-6, 1e-4, 1e-3}) { targets.push_back(xlast * (1 - e)); targets.push_back(xlast * (1 + e)); }
+  targets.push_back(xlast);
+  std::sort(targets.begin(), targets.end());
+  double prev_x = 0, prev_y = 0; uint64_t pts = 0, h = lg_k;
+  for (double x : targets) {
+    arr->putKxQ0(raw_at_1 / x);
+    const double raw = arr->getHllRawEstimate();
+    const double y = sk.get_composite_estimate();
+    auto ctx = [&] { return "lg_k=" + std::to_string(lg_k) + " raw estimate=" + str(raw) + " (table end " + str(xlast) + ") composite=" + str(y) + " previous raw=" + str(prev_x) + " composite=" + str(prev_y); };
+    VF_CHECK(std::isfinite(y) && y > 0, "hll|composite-estimate|not-finite-or-not-positive", ctx());
+    if (pts > 0) {
+      VF_CHECK(y >= prev_y, "hll|composite-estimate|decreasing-in-raw-estimate", ctx());
+      VF_CHECK(y / prev_y - 1.0 <= 3.0 * (raw / prev_x - 1.0) + 1e-12, "hll|composite-estimate|jump-in-raw-estimate", ctx());
+    }
+    if (raw > xlast) count("grid_composite_extrapolated_points");
+    prev_x = raw; prev_y = y; ++pts; h = mix64(h, static_cast<uint64_t>(y));
+  }
+  count("grid_composite_points", pts);
+  sig(h);
+}
+
 void run_case(uint64_t idx, Rng& r) {
   (void)r;
   const CaseDef& c = cases()[idx];
@@ -320,6 +361,7 @@ void run_case(uint64_t idx, Rng& r) {
     case K_COUPON: run_coupon(); break;
     case K_BINOM: run_binom(NS()[c.arg]); break;
     case K_EXACTCOV: run_exact_coverage(COV_NS()[c.arg]); break;
+    case K_COMPOSITE: run_composite(static_cast<uint8_t>(c.arg)); break;
   }
 }
 
